@@ -242,6 +242,9 @@ func resolveRoles(w *World) *Roles {
 					if !strings.HasSuffix(w.AP(pair[1]), ".Concurrency") {
 						continue
 					}
+					if c, ok := w.Resolve(pair[0]).(*ssa.Call); ok && c.Call.StaticCallee() != nil && w.InModule(c.Call.StaticCallee()) {
+						ro.Count = c.Call.StaticCallee() // counted inside the helper
+					}
 					if prm, ok := w.Resolve(pair[0]).(*ssa.Parameter); ok && prm.Parent() == h {
 						if i := paramIdxOf(prm); i >= 0 && i < len(ci.Common().Args) {
 							if c, ok := w.Resolve(ci.Common().Args[i]).(*ssa.Call); ok && c.Call.StaticCallee() != nil && w.InModule(c.Call.StaticCallee()) {
